@@ -218,7 +218,7 @@ class Translator:
             return self.exec_body(st.body if c else st.orelse, env, mod, depth)
         if isinstance(st, ast.For):
             it = self.eval(st.iter, env, mod, depth)
-            if not isinstance(it, (list, tuple, range, dict)):
+            if not isinstance(it, (list, tuple, range, dict, str)):
                 raise Unmodelled("loop over a non-constant iterable: %s" % ast.unparse(st.iter))
             for x in list(it):
                 self.assign(st.target, x, env, mod, depth)
@@ -409,7 +409,7 @@ class Translator:
                 return
             g = gens[0]
             it = self.eval(g.iter, e, mod, depth)
-            if not isinstance(it, (list, tuple, range, dict)):
+            if not isinstance(it, (list, tuple, range, dict, str)):
                 raise Unmodelled("comprehension over a non-constant iterable")
             for x in list(it):
                 e2 = dict(e)
@@ -573,12 +573,12 @@ class Translator:
         raise Unmodelled("call of %r" % (callee,))
 
     def method_call(self, obj, name, args, kwargs, n, mod, depth):
+        if isinstance(obj, (list, str, tuple)) and name == "index":
+            return sp.Integer(obj.index(args[0]))
         if isinstance(obj, list):
             if name == "append":
                 obj.append(args[0])
                 return None
-            if name == "index":
-                return obj.index(args[0])
         if isinstance(obj, dict):
             if name == "get":
                 return obj.get(_pykey(args[0]), args[1] if len(args) > 1 else None)
@@ -694,6 +694,16 @@ class Translator:
             for c in coeffs:  # tf.math.polyval / np.polyval: highest power first (Horner)
                 acc = acc * x + _s(c)
             return acc
+        if last == "arange" and all((is_sym(x) and x.is_number) or isinstance(x, (int, float)) for x in args) and 1 <= len(args) <= 3:
+            a = [_s(x) for x in args]
+            lo, hi, st = (sp.Integer(0), a[0], sp.Integer(1)) if len(a) == 1 else (a[0], a[1], a[2] if len(a) == 3 else sp.Integer(1))
+            if st <= 0:
+                raise Unmodelled("arange with non-positive step")
+            out, v = [], lo
+            while v < hi and len(out) < 10000:
+                out.append(v)
+                v = v + st
+            return as_arr(out) if out else np.empty((0,), dtype=object)
         if last in ("maximum", "minimum"):
             raise Unmodelled("%s is data dependent" % d)
         if last in ("add", "subtract", "multiply", "divide", "truediv"):
